@@ -338,6 +338,8 @@ impl<const K: u8> Probe<K> {
                 let ok = ctx.stop().is_ok();
                 log(EvKind::CtxOp { actor, inv, op: CtxOpKind::Stop, ok });
             }
+            // never restart a stream-attached actor (documented panic of the library)
+            Step::CtxRestart if with_case(|c| c.actors.borrow()[actor].stream) => {}
             Step::CtxRestart => {
                 let ok = ctx.restart().is_ok();
                 log(EvKind::CtxOp { actor, inv, op: CtxOpKind::Restart, ok });
